@@ -58,7 +58,8 @@ def drive_and_validate(ctx, prop, insts, describe=None, extra=None):
         i, ln = byoid[oid]
         pt = i["pt"]
         key = (f"{i['rel']}:{pt['proc']}:{pt['proj']}:{pt['kind']}_{pt['flav']}:{pt['fns']}{pt['nfff']}:nfzm{pt['nfzm']}:"
-               f"pto{pt['pto']}.{pt['ptoEvol']}:Z{pt['target'][0][0]}/{pt['target'][0][1]}A{pt['target'][1][0]}/{pt['target'][1][1]}:{clause}")
+               f"pto{pt['pto']}.{pt['ptoEvol']}:Z{pt['target'][0][0]}/{pt['target'][0][1]}A{pt['target'][1][0]}/{pt['target'][1][1]}"
+               f"{''.join('.' + str(k) + '=' + str(v) for k, v in sorted((i.get('extra') or {}).items()))}:{clause}")
         ctx.violation(key, f"relation {i['rel']} fails for {pt['kind']} {pt['proc']} {pt['fns']}(NfFF={pt['nfff']}) "
                       f"PTODIS={pt['pto']} PTO={pt['ptoEvol']}: {clause} ({ln['worst']})",
                       dict(kind="relation", instance=i, observed=ln))
